@@ -374,9 +374,15 @@ impl Indexable for ast::MultiClass {
         let multiclass_id = ctx.symbol_map.add_multiclass(multiclass);
 
         ctx.scopes.push(ScopeKind::Multiclass(multiclass_id));
-        self.template_arg_list()?.index(ctx);
-        self.parent_class_list()?.index(ctx);
-        self.statement_list()?.index(ctx);
+        if let Some(list) = self.template_arg_list() {
+            list.index(ctx);
+        }
+        if let Some(list) = self.parent_class_list() {
+            list.index(ctx);
+        }
+        if let Some(list) = self.statement_list() {
+            list.index(ctx);
+        }
         ctx.scopes.pop();
 
         None
